@@ -100,7 +100,10 @@ def s_format_triples(rng):
 def s_interpret(rng):
     t = gen.gen_tree(rng, wf=maybe(rng, 0.6), weird=0.15)
     tree = Tree(t, metadata=gen.gen_metadata(rng) if maybe(rng, 0.2) else {})
-    return {'op': 'interpret', 'tree': j_tree(tree), 'model': gen.gen_model(rng)}
+    op = {'op': 'interpret', 'tree': j_tree(tree), 'model': gen.gen_model(rng)}
+    if maybe(rng, 0.05):
+        del op['model']        # the library's own default model
+    return op
 
 
 def s_decode(rng):
@@ -117,6 +120,8 @@ def s_configure(rng):
     if op['op'] == 'encode':
         op['indent'] = rng.choice([None, -1, 0, 2])
         op['compact'] = maybe(rng, 0.3)
+    elif m == 'default' and maybe(rng, 0.15):
+        del op['model']
     return op
 
 
@@ -219,7 +224,10 @@ def s_transform(rng):
             g = penman.transform.reify_edges(g, py_model(m))
         except Exception:  # noqa: BLE001
             pass
-    return {'op': name, 'graph': j_graph(g), 'model': m}
+    op = {'op': name, 'graph': j_graph(g), 'model': m}
+    if m == 'default' and maybe(rng, 0.2):
+        del op['model']
+    return op
 
 
 def s_graph_new(rng):
@@ -373,6 +381,13 @@ def s_dumps(rng):
             'compact': maybe(rng, 0.3)}
 
 
+def s_dump(rng):
+    op = s_dumps(rng)
+    op['op'] = 'dump'
+    op['container'] = rng.choice(['file', 'stringio'])
+    return op
+
+
 STREAMS = {
     'lex': s_lex_random, 'parse': s_parse_random, 'parse_triples': s_parse_triples, 'format': s_format,
     'format_triples': s_format_triples, 'interpret': s_interpret, 'decode': s_decode, 'configure': s_configure,
@@ -380,7 +395,7 @@ STREAMS = {
     'diagnostics': s_diagnostics, 'model_role': s_model_role, 'model_triple': s_model_triple, 'dereify': s_dereify,
     'errors': s_errors, 'canonicalize_roles': s_canonicalize_roles, 'transform': s_transform,
     'graph_new': s_graph_new, 'graph_filter': s_graph_filter, 'graph_ops': s_graph_ops, 'quote': s_quote,
-    'evaluate': s_evaluate, 'main': s_main, 'loads': s_loads, 'dumps': s_dumps,
+    'evaluate': s_evaluate, 'main': s_main, 'loads': s_loads, 'dumps': s_dumps, 'dump': s_dump,
 }
 
 
